@@ -203,6 +203,16 @@ fn env_alphabet_v(t: usize, small: bool) -> Vec<Letter> {
     al.push(Letter::one(o(1, "ACS", z)));
     al.push(Letter::one(d("ACS", z)));
     al.push(Letter::one(d("ACS", &vecs[0])));
+    // cooling demand before heating demand, heating demand in two lines (one per zone)
+    al.push(Letter::one(d("REF", &vecs[0])));
+    al.push(Letter::one(d("CAL", z)));
+    al.push(Letter::one(d("CAL", &vecs[0])));
+    // declared lines that are zero at every step (idle systems): declared data all the same
+    let zeros: Vec<V> = vec![0; t];
+    al.push(Letter::one(u(Some(1), "ACS", "EAMBIENTE", &zeros)));
+    al.push(Letter::one(p(Some(1), "EAMBIENTE", &zeros)));
+    al.push(Letter::one(u(Some(2), "CAL", "GASNATURAL", &zeros)));
+    al.push(Letter::many(vec![a(Some(2), &zeros), o(2, "CAL", &zeros)]));
     al.push(Letter::one(a(Some(1), z)));
     al.push(Letter::one(Line::U { id: Some(2), srv: "ACS", car: "EAMBIENTE", v: z.clone(), com: "BdC 2: SCOP 3 # x" }));
     al.push(Letter::one(Line::P { id: Some(2), src: "EAMBIENTE", v: vecs[0].clone(), com: "declarada" }));
